@@ -11,7 +11,7 @@ from jv.props import common as C
 
 ID = "C16"
 LEVEL = "exploration"
-BUDGET = {"quick": 2400, "thorough": 40000}
+BUDGET = {"quick": 4000, "thorough": 48000}
 RULE = (
     "case = generated scenario with each of the four lifecycle commands set or unset (all 16 combinations), HPC or "
     "local mode, x schedule x optional lost batch (completion with missing jobs) x optional resubmit-jobs after "
